@@ -290,7 +290,7 @@ def run(tier, rep):
             # settled on, eps * (size of f) / h^n, the estimate has to cover the error up to the fixed factor K_tight
             hh = extra['h'][min(len(extra['h']) - 1, vals.index(v))] if extra['h'] else 0.0
             if hh > 0 and not c01.cell_suffix(r, m, n):
-                rfloor = TIGHT['C_one_sided' if m in ('forward', 'backward') else 'C'] * EPS * max(extra['maxf'], s0j) / hh ** n + 1e-12 * abs(exact)
+                rfloor = TIGHT['C_one_sided' if m in ('forward', 'backward') else 'C'] * 2.0 ** n * EPS * max(extra['maxf'], s0j) / hh ** n + 1e-12 * abs(exact)      # an n-th difference sums 2^n function values
                 ntight += 1
                 if err > rfloor:
                     tight_beyond += 1
